@@ -69,11 +69,20 @@ type cser struct {
 	C []chk
 }
 
+type probeRec struct {
+	All  []smp
+	Skip int
+	T    int64
+	Got  []smp
+	None bool
+}
+
 type obs struct {
-	Kind string // ok | limit | other
-	Err  string
-	L    []ser
-	Seek []string // failed Seek probes
+	Kind   string // ok | limit | other
+	Err    string
+	L      []ser
+	Seek   []string   // failed Seek probes
+	Probes []probeRec // every Seek probe (recorded for the SAMPLES client)
 }
 
 func f64(h io.Writer, f float64) { u64(h, math.Float64bits(f)) }
@@ -166,6 +175,9 @@ func drain(it chunkenc.Iterator) ([]smp, error) {
 		case chunkenc.ValFloatHistogram:
 			t, h := it.AtFloatHistogram(nil)
 			out = append(out, smp{t, 2, digestFH(h)})
+			if os.Getenv("VERIF_C42_STORE") != "" {
+				fmt.Fprintf(os.Stderr, "FH %d %d hint=%d %+v\n", t, digestFH(h), h.CounterResetHint, *h)
+			}
 		default:
 			return out, fmt.Errorf("value type %v", vt)
 		}
@@ -330,6 +342,18 @@ func gFrames(l []cser) string {
 	return gallina.List(it)
 }
 
+func gProbes(l []probeRec) string {
+	it := make([]string, len(l))
+	for i, p := range l {
+		o := "None"
+		if !p.None {
+			o = gallina.Some(gSamples(p.Got))
+		}
+		it[i] = fmt.Sprintf("mkProbe %s %s %s %s", gSamples(p.All), gallina.Nat(p.Skip), gallina.Z(p.T), o)
+	}
+	return gallina.List(it)
+}
+
 func gObs(o obs) string {
 	switch o.Kind {
 	case "ok":
@@ -381,16 +405,23 @@ func (r *rig) serve(q storage.SampleAndChunkQueryable, ext labels.Labels, limit,
 	}, limit, 4, maxBytes)
 }
 
-// seekProbe checks chunkenc.Iterator.Seek of a client-side series against the sample list
+// seekRun checks chunkenc.Iterator.Seek of a client-side series against the sample list
 // obtained with Next alone: a fresh iterator, `skip` calls of Next, then Seek(t) must stand on
 // the first sample with timestamp >= t that is not before the current one, and Next must
 // continue from there.
-func seekProbe(s storage.Series, all []smp, skip int, t int64) string {
+// seekRun additionally returns what was observed: the samples from the Seek position on, or
+// none = Seek returned ValNone.
+func seekRun(s storage.Series, all []smp, skip int, t int64) (msg string, got []smp, none bool) {
+	defer func() {
+		if r := recover(); r != nil {
+			msg = fmt.Sprintf("Seek(%d) after %d Next: panic %v", t, skip, r)
+		}
+	}()
 	it := s.Iterator(nil)
 	pos := -1
 	for i := 0; i < skip && i < len(all); i++ {
 		if it.Next() == chunkenc.ValNone {
-			return fmt.Sprintf("Next #%d returned ValNone early", i+1)
+			return fmt.Sprintf("Next #%d returned ValNone early", i+1), nil, true
 		}
 		pos = i
 	}
@@ -402,16 +433,12 @@ func seekProbe(s storage.Series, all []smp, skip int, t int64) string {
 		want++
 	}
 	vt := it.Seek(t)
-	if want >= len(all) {
-		if vt != chunkenc.ValNone {
-			return fmt.Sprintf("Seek(%d) after %d Next: got a sample, want ValNone", t, skip)
-		}
-		return ""
-	}
 	if vt == chunkenc.ValNone {
-		return fmt.Sprintf("Seek(%d) after %d Next: ValNone, want sample at %d (err %v)", t, skip, all[want].T, it.Err())
+		if want < len(all) {
+			return fmt.Sprintf("Seek(%d) after %d Next: ValNone, want sample at %d (err %v)", t, skip, all[want].T, it.Err()), nil, true
+		}
+		return "", nil, true
 	}
-	var got []smp
 	switch vt {
 	case chunkenc.ValFloat:
 		ts, v := it.At()
@@ -423,28 +450,33 @@ func seekProbe(s storage.Series, all []smp, skip int, t int64) string {
 		ts, h := it.AtFloatHistogram(nil)
 		got = append(got, smp{ts, 2, digestFH(h)})
 	}
-	if it.AtT() != got[0].T {
-		return fmt.Sprintf("Seek(%d): AtT %d differs from At %d", t, it.AtT(), got[0].T)
-	}
+	atT := it.AtT()
 	rest, err := drain(it)
-	if err != nil {
-		return fmt.Sprintf("Seek(%d) then Next: %v", t, err)
-	}
 	got = append(got, rest...)
+	if atT != got[0].T {
+		return fmt.Sprintf("Seek(%d): AtT %d differs from At %d", t, atT, got[0].T), got, false
+	}
+	if err != nil {
+		return fmt.Sprintf("Seek(%d) then Next: %v", t, err), got, false
+	}
+	if want >= len(all) {
+		return fmt.Sprintf("Seek(%d) after %d Next: got a sample, want ValNone", t, skip), got, false
+	}
 	if len(got) != len(all)-want {
-		return fmt.Sprintf("Seek(%d) after %d Next: %d samples from %d on, want %d from %d on", t, skip, len(got), got[0].T, len(all)-want, all[want].T)
+		return fmt.Sprintf("Seek(%d) after %d Next: %d samples from %d on, want %d from %d on", t, skip, len(got), got[0].T, len(all)-want, all[want].T), got, false
 	}
 	for i := range got {
 		if got[i] != all[want+i] {
-			return fmt.Sprintf("Seek(%d) after %d Next: sample %d is %v, want %v", t, skip, i, got[i], all[want+i])
+			return fmt.Sprintf("Seek(%d) after %d Next: sample %d is %v, want %v", t, skip, i, got[i], all[want+i]), got, false
 		}
 	}
-	return ""
+	return "", got, false
 }
 
 // probes of the current case (set by runCase): random source and the query range
 var probeRand *gen.Rand
 var probeMint, probeMaxt int64
+var fixedProbes [][2]int64 // (skip, t) probes of a corpus case, instead of random ones
 
 func (r *rig) read(c remote.ReadClient, q *prompb.Query, sortSeries bool) obs {
 	ss, err := c.Read(context.Background(), q, sortSeries)
@@ -462,6 +494,7 @@ func (r *rig) readSet(ss storage.SeriesSet) obs {
 	var err error
 	var l []ser
 	var seekErr []string
+	var probes []probeRec
 	var it chunkenc.Iterator
 	for ss.Next() {
 		s := ss.At()
@@ -485,8 +518,21 @@ func (r *rig) readSet(ss storage.SeriesSet) obs {
 				if probeRand.Chance(1, 2) {
 					skip = probeRand.Intn(len(sm) + 1)
 				}
-				if e := seekProbe(s, sm, skip, t); e != "" {
+				if fixedProbes != nil {
+					if k >= len(fixedProbes) {
+						break
+					}
+					skip, t = int(fixedProbes[k][0]), fixedProbes[k][1]
+				}
+				if skip > len(sm) {
+					skip = len(sm)
+				}
+				e, got, none := seekRun(s, sm, skip, t)
+				if e != "" {
 					seekErr = append(seekErr, e)
+				}
+				if len(probes) < 4 || e != "" {
+					probes = append(probes, probeRec{All: sm, Skip: skip, T: t, Got: got, None: none})
 				}
 			}
 		}
@@ -500,8 +546,8 @@ func (r *rig) readSet(ss storage.SeriesSet) obs {
 		}
 		return obs{Kind: "other", Err: err.Error(), L: l}
 	}
-	if len(seekErr) > 0 {
-		return obs{Kind: "ok", L: l, Seek: seekErr}
+	if len(seekErr) > 0 || len(probes) > 0 {
+		return obs{Kind: "ok", L: l, Seek: seekErr, Probes: probes}
 	}
 	// a second Next after exhaustion must stay false
 	if ss.Next() {
@@ -786,11 +832,14 @@ func main() {
 	seen0 := map[string]bool{}
 
 	runCorpus(f, meta, cf, rg, &id0, seen0)
-	nStores := f.Count(20, 600)
+	nStores := f.Count(20, 400)
 	perStore := 8
 	id := id0
 	seen := seen0
 	for si := 0; si < nStores; si++ {
+		if v := os.Getenv("VERIF_C42_STORE"); v != "" && v != fmt.Sprint(si) { // debugging aid: one storage only
+			continue
+		}
 		r := gen.Fork(f.Seed, si)
 		dir, err := os.MkdirTemp(f.Out, "c42db")
 		if err != nil {
@@ -971,6 +1020,10 @@ func runCorpus(f gallina.Flags, meta *gallina.Meta, cf *gallina.CaseFile, rg *ri
 			{name: "maxint64", mint: 0, maxt: math.MaxInt64, ms: all, maxBytes: 1 << 20},
 		}},
 	}
+	mixedSamples := []pend{{l: lset, t: 10, v: 1}, {l: lset, t: 20, k: 1, i: 3}, {l: lset, t: 30, v: 2}, {l: lset, t: 40, k: 2, i: 4}}
+	fx = append(fx, fixed{"corpus: one series float@10 hist@20 float@30 floathist@40", 120, mixedSamples, []qparams{
+		{name: "seek-noop-mixed-series", mint: 0, maxt: 100, ms: all, maxBytes: 1 << 20, probes: [][2]int64{{1, 10}, {0, 20}, {2, 25}}},
+	}})
 	for i, c := range fx {
 		dir, err := os.MkdirTemp(f.Out, "c42corpus")
 		if err != nil {
@@ -983,7 +1036,14 @@ func runCorpus(f gallina.Flags, meta *gallina.Meta, cf *gallina.CaseFile, rg *ri
 		st := &store{db: db, desc: c.desc, names: []string{"m0"}, jobs: []string{"a"}}
 		app := db.DB.Appender(context.Background())
 		for _, p := range c.samples {
-			if _, err := app.Append(0, p.l, p.t, p.v); err != nil {
+			var err error
+			if p.k == 0 {
+				_, err = app.Append(0, p.l, p.t, p.v)
+			} else {
+				h, fh := genHist(p.k, p.i, 0)
+				_, err = app.AppendHistogram(0, p.l, p.t, h, fh)
+			}
+			if err != nil {
 				panic(fmt.Sprintf("%s: %v", c.desc, err))
 			}
 			st.times = append(st.times, p.t)
@@ -1020,6 +1080,7 @@ type qparams struct {
 	sortSeries bool
 	ext        labels.Labels
 	untrimmed  bool
+	probes     [][2]int64
 }
 
 func runCase(f gallina.Flags, meta *gallina.Meta, cf *gallina.CaseFile, rg *rig, st *store, si int, r *gen.Rand, id *int, seen map[string]bool, preset *qparams) {
@@ -1141,7 +1202,10 @@ func runCase(f gallina.Flags, meta *gallina.Meta, cf *gallina.CaseFile, rg *rig,
 	if err != nil {
 		panic(err)
 	}
-	probeRand, probeMint, probeMaxt = r, mint, maxt
+	probeRand, probeMint, probeMaxt, fixedProbes = r, mint, maxt, nil
+	if preset != nil && preset.probes != nil {
+		fixedProbes = preset.probes
+	}
 	sampled := rg.read(rg.sampled, pq, sortSeries)
 	chunked := rg.read(rg.chunked, pq, sortSeries)
 	frames, err := rg.rawFrames(pq)
@@ -1277,7 +1341,7 @@ func runCase(f gallina.Flags, meta *gallina.Meta, cf *gallina.CaseFile, rg *rig,
 	}
 	// Seek probes are judged here (the model covers iteration with Next only)
 	if strings.Contains(shape, "sampled-maxint64-dropped") {
-		sampled.Seek = nil // Seek does find the sample Next drops: the same finding seen from the other side
+		sampled.Seek, sampled.Probes = nil, nil // Seek does find the sample Next drops: the same finding seen from the other side
 	}
 	if len(sampled.Seek) > 0 {
 		// known shape: a series with floats AND histograms; Seek's "no-op" exit has already moved
@@ -1293,14 +1357,21 @@ func runCase(f gallina.Flags, meta *gallina.Meta, cf *gallina.CaseFile, rg *rig,
 	}
 	if len(sampled.Seek)+len(chunked.Seek) > 0 {
 		meta.Hit("fails:seek")
-		meta.GoViol = append(meta.GoViol, gallina.GoViolation{ID: fmt.Sprint(*id), Shape: strings.Join(why, "+"),
-			What: fmt.Sprintf("Seek on the client-side iterator disagrees with Next: sampled %q chunked %q", sampled.Seek, chunked.Seek)})
+		shape = strings.Join(why, "+")
 	}
+	if strings.Contains(shape, "unexplained") && os.Getenv("VERIF_C42_STORE") != "" {
+		fmt.Fprintf(os.Stderr, "case %d shape %s\n direct  %v\n chunks  %v\n sampled %v\n chunked %v\n querier %v\n", *id, shape, direct, chunks, sampled.L, chunked.L, querier.L)
+	}
+	if len(chunked.Seek) > 0 { // chunkedSeriesIterator.Seek is not modelled: judged here
+		meta.GoViol = append(meta.GoViol, gallina.GoViolation{ID: fmt.Sprint(*id), Shape: shape,
+			What: fmt.Sprintf("Seek on the chunked client-side iterator disagrees with Next: %q", chunked.Seek)})
+	}
+	meta.Dist["seek-probes"] += len(sampled.Probes)
 
-	cf.Add(fmt.Sprintf("mkCase %s %s %s %d %d %s %s\n %s\n %s\n %s\n %s\n %s\n %s %s %s",
+	cf.Add(fmt.Sprintf("mkCase %s %s %s %d %d %s %s\n %s\n %s\n %s\n %s\n %s\n %s %s %s\n %s",
 		gallina.Z(int64(*id)), gallina.Z(mint), gallina.Z(maxt), maxBytes, limit, gallina.Bool(sortSeries), gLabels(lblPairs(ext)),
 		gSeries(direct), gCSeries(chunks), gObs(sampled), gFrames(frames), gObs(chunked),
-		gallina.Bool(qchunked), gallina.List(mnames), gObs(querier)))
+		gallina.Bool(qchunked), gallina.List(mnames), gObs(querier), gProbes(sampled.Probes)))
 	so := sampled.Kind
 	if sampled.Err != "" {
 		so += ": " + sampled.Err
